@@ -3,6 +3,8 @@ package interp
 import (
 	"fmt"
 	"go/types"
+	"math"
+	"regexp"
 	"strings"
 
 	"symgo/smt"
@@ -368,6 +370,40 @@ func init() {
 		panic(unsupported("time.now reached directly"))
 	})
 	reg("time.runtimeNano", func(r *Run, _ *frame, _ *ssa.Function, args []Value) Value { return smt.Const(64, 1) })
+
+	// ---- math (bit casts through unsafe) ----
+	reg("math.Float64bits", func(r *Run, _ *frame, _ *ssa.Function, args []Value) Value {
+		return smt.Const(64, math.Float64bits(float64(args[0].(Float))))
+	})
+	reg("math.Float64frombits", func(r *Run, _ *frame, _ *ssa.Function, args []Value) Value {
+		t := r.asInt(args[0])
+		if !t.IsConst() {
+			panic(unsupported("Float64frombits of symbolic value"))
+		}
+		return Float(math.Float64frombits(t.K))
+	})
+	reg("math.Float32bits", func(r *Run, _ *frame, _ *ssa.Function, args []Value) Value {
+		return smt.Const(32, uint64(math.Float32bits(float32(args[0].(Float)))))
+	})
+	reg("math.Float32frombits", func(r *Run, _ *frame, _ *ssa.Function, args []Value) Value {
+		t := r.asInt(args[0])
+		if !t.IsConst() {
+			panic(unsupported("Float32frombits of symbolic value"))
+		}
+		return Float(math.Float32frombits(uint32(t.K)))
+	})
+
+	// ---- regexp: compiled on the host, matched by summarisation (rx.go) ----
+	reg("regexp.MustCompile", func(r *Run, _ *frame, _ *ssa.Function, args []Value) Value {
+		pat := cstr(args[0])
+		re, err := regexp.Compile(pat)
+		if err != nil {
+			panic(targetPanic{v: Iface{T: r.E.runtimeErrType, V: mkStr("regexp: Compile: " + err.Error())}})
+		}
+		t := r.E.lookupType("regexp", "Regexp")
+		b := &Agg{T: t, Box: true, E: []Value{&nativeObj{kind: "regexp", data: re}}, ID: r.newID()}
+		return Ptr{A: b, I: 0}
+	})
 
 	// ---- os ----
 	reg("os.Getpid", func(r *Run, _ *frame, _ *ssa.Function, args []Value) Value {
